@@ -105,8 +105,11 @@ type Exec struct {
 	Cancel   context.CancelFunc
 	nreq     int
 	tmp      string
-	// for C04: index of the final top-level write in the log (-1 if none)
 	Faults []string
+	// for C04: sequence number of the first request that found the requested reference moved
+	// (0 = not seen moved at any request), and of the last injected fault
+	TagAt     int
+	LastFault int
 }
 
 func (x *Exec) tgtIsDir() bool { return strings.HasSuffix(x.Sc.Pair, "-dir") }
